@@ -385,6 +385,13 @@ class Run:
             if rc != 0:
                 tail = open(log.name).read()[-1500:]
                 died = rc < 0 or any(w in tail for w in ("SIGSEGV", "signal SIG", "fatal error:", "unexpected fault address", "[signal "))
+                if not died:
+                    # an uncaught Go panic whose innermost frame is the real code (not the harness): the server would have died too
+                    full = open(log.name).read()
+                    mp = re.search(r"^panic: .*?\n\ngoroutine \d+ \[running\]:\n(?:panic\(.*\n\s+.*\n)?(\S+)", full, re.M | re.S)
+                    if mp and mp.group(1).startswith("github.com/douban/gobeansdb/"):
+                        died = True
+                        tail = full[full.index("panic: "):][:1500]
                 if died:
                     # the process running the REAL code died (a crash inside C code, a Go runtime fatal error): that is a
                     # result about the code, not about the machinery.  Run the shard again with every trace line flushed,
